@@ -516,6 +516,13 @@ func addrEq(a, b net.Addr) bool {
 func portFwd() {
 	ips := []net.IP{net.ParseIP("127.0.0.1"), net.ParseIP("::1"), net.ParseIP("10.1.2.3"), net.ParseIP("2001:db8::1"), nil}
 	ports := []int{0, 1, 80, 32767, 32768, 65535}
+	if R.Thorough() {
+		ports = nil
+		for p := 0; p <= 65535; p += 251 { // every residue of the low byte and every high byte
+			ports = append(ports, p)
+		}
+		ports = append(ports, 1, 255, 256, 32767, 32768, 65535)
+	}
 	for _, ip := range ips {
 		for _, p := range ports {
 			for _, ft := range []int{portforwarding.PfLocal, portforwarding.PfRemote, 0, 255} {
@@ -693,7 +700,16 @@ func userAuth() {
 
 func main() {
 	R = vk.New("C18", "exploration")
-	R.SetRule("per codec a value grid (lengths 0,1,2,252..257,300,65535,65536; enums incl. unknown; times 0,1,2^31,2^62; ports; all 64 frame flag combinations; <=2 fields off a baseline for intents) under oracle A (encode refuses, or decode(encode(v)) == v consuming exactly the bytes written), and structured byte strings (valid encodings with each length / type / reserved byte varied and every truncation) under oracle B (what decodes re-encodes and decodes to the same value). Codecs: certs.Name, Certificate (+PEM), common strings, authgrants intent request/communication/denial/confirmation, proxy target info and failure, tube frame and initiate frame, exec init message, port-forward request, user-auth request (through a real reliable tube), DH / signing / KEM public-key text forms. distinct_nontrivial = distinct (codec, case) pairs that reached the decoder.")
+	if R.Thorough() {
+		// every length up to 700 (all one-byte length fields and the label / chunk limits lie inside),
+		// the powers of two up to 128 KiB and the 16-bit edge
+		lens = nil
+		for l := 0; l <= 700; l++ {
+			lens = append(lens, l)
+		}
+		lens = append(lens, 1023, 1024, 1025, 4095, 4096, 4097, 32767, 32768, 65534, 65535, 65536, 65537, 70000, 131072)
+	}
+	R.SetRule("per codec a value grid (lengths 0,1,2,252..257,300,65535,65536 in the quick tier; every length 0..700 plus 1023..1025, 4095..4097, 32767, 32768, 65534..65537, 70000, 131072 in the thorough tier; enums incl. unknown; times 0,1,2^31,2^62; ports; all 64 frame flag combinations; <=2 fields off a baseline for intents) under oracle A (encode refuses, or decode(encode(v)) == v consuming exactly the bytes written), and structured byte strings (valid encodings with each length / type / reserved byte varied and every truncation) under oracle B (what decodes re-encodes and decodes to the same value). Codecs: certs.Name, Certificate (+PEM), common strings, authgrants intent request/communication/denial/confirmation, proxy target info and failure, tube frame and initiate frame, exec init message, port-forward request, user-auth request (through a real reliable tube), DH / signing / KEM public-key text forms. distinct_nontrivial = distinct (codec, case) pairs that reached the decoder.")
 	names()
 	certificates()
 	stringsCodec()
